@@ -371,12 +371,17 @@ func (h *Hist) genTx() *histTx {
 		if err != nil {
 			return nil
 		}
-		_, custody, _, _ := pp.GetPerpetualPoolBalances(d)
+		liab, custody, _, _ := pp.GetPerpetualPoolBalances(d)
 		free := bal.Sub(custody)
 		if !free.IsPositive() {
 			return nil
 		}
 		a := free.MulRaw(int64([]int{45, 55, 70, 95}[r.Intn(4)])).QuoRaw(100)
+		if liab.MulRaw(40).GT(free) && r.Intn(4) != 0 {
+			// short positions owe this asset: the pool prices on (holdings + liabilities − custody), so two requests of free/2 + liabilities/4
+			// are both affordable by price while the second would take the holdings below the custody
+			a = free.QuoRaw(2).Add(liab.QuoRaw(4))
+		}
 		if !a.IsPositive() {
 			return nil
 		}
